@@ -109,14 +109,18 @@ def gen_copy(pid, seed, consts, tier):
     if pid in ('C01', 'C02', 'C03', 'C04', 'C05', 'C06', 'C08'):
         bos = ('unk', 'exact', 'larger', 'smaller') if pid in ('C01', 'C03', 'C04', 'C05') else ('unk', 'exact')
         fl = ('R', 'L') if pid in ('C01', 'C02') else ('R',)
-        pri = ('garbage', 'half') if pid != 'C03' else ('garbage',)
-        g.str_sep(ofun, small + switch, lens, bos, fl, pri + (('empty', 'full1') if pid in ('C06', 'C08', 'C01') else ()), (None,))
+        pri = ('garbage', 'half', 'empty') if pid != 'C03' else ('garbage',)
+        g.str_sep(ofun, small + switch, lens, bos, fl, pri + (('full1',) if pid in ('C06', 'C08', 'C01') else ()), (None,))
         g.str_sep(nfun, small + switch, lens, bos, fl, pri, ('lt', 'eq', 'gt', 'zero') + (('big', 'max') if pid in ('C05', 'C04', 'C03') else ()))
-        g.str_sep(narrow[:2], [rmax - 1, rmax], lambda d: [0, d - 1, d], ('unk',), ('R',), ('garbage',), (None,))
+        # RSIZE_MAX-sized operands: the extracted model is quadratic in the number of element stores, keep these few
+        g.str_sep(narrow[:2], [rmax], lambda d: [3], ('unk',), ('R',), ('garbage',), (None,))
+        g.str_sep(narrow[:1], [rmax], lambda d: [d - 1] if thorough else [d // 4], ('unk',), ('R',), ('garbage',), (None,), orders=('ds',))
         g.str_bad(STRF)
     if pid in ('C07',):
         g.str_arena(STRF, [1, 2, 3, 5] + ([4, 6, 8] if thorough else []), 4 if not thorough else 6)
         g.str_arena(['strcpy_s', 'strcat_s'], [34], 3)
+    if pid in ('C03', 'C04', 'C08', 'C01', 'C02'):
+        g.str_arena(STRF, [2, 4] + ([3, 6] if thorough else []), 3)
     if pid in ('C01', 'C04', 'C05', 'C06'):
         sizes = [0, 1, 2, 3, 7, 8, 9, 15, 16, 17, 31, 32, 33, 63, 64, 65, 100] + (list(range(101, 300, 7)) if thorough else [])
         g.mem_cases(MEMF, sizes, aligns=(0, 1, 3, 7) if not thorough else tuple(range(16)))
